@@ -3,8 +3,8 @@
 (* The instance generator.                                                 *)
 (*                                                                         *)
 (* Arguments: a record a = [g |-> set of option names given on the command *)
-(* line, v |-> [name |-> value]].  Tie probabilities are in quarters       *)
-(* (0..4 legal), the skew in halves; numbers are integers.                 *)
+(* line, v |-> [name |-> value]].  Tie probabilities are in twentieths     *)
+(* (0..20 legal), the skew in halves; numbers are integers.                *)
 (*                                                                         *)
 (* Defs:  Required / Inapplicable / BoundsOK / Accepts : which argument    *)
 (*        sets are accepted (C15); WellFormedFile: what an accepted run    *)
@@ -48,7 +48,7 @@ BoundsOK(a) ==
     /\ a.numinst >= 1
     /\ N1(a) >= 1 /\ N2(a) >= 1 /\ (a.mp = "spa" => N3(a) >= 1)
     /\ a.v["pmin"] >= 1 /\ a.v["pmin"] <= a.v["pmax"] /\ a.v["pmax"] <= N2(a)
-    /\ T1(a) >= 0 /\ T1(a) <= 4 /\ T2(a) >= 0 /\ T2(a) <= 4
+    /\ T1(a) >= 0 /\ T1(a) <= 20 /\ T2(a) >= 0 /\ T2(a) <= 20
     /\ LQ(a) >= 0 /\ UQ(a) >= N2(a) /\ LQ(a) <= UQ(a)
     /\ a.mp = "spa" => /\ LLQ(a) >= 0 /\ a.v["luq"] >= 1
                        /\ LLQ(a) <= LT(a) /\ LT(a) <= a.v["luq"]
@@ -76,7 +76,7 @@ MechParse(a) ==      \* "accept" | "usage" | "crash"
         ELSE IF a.v["pmax"] < a.v["pmin"] THEN "usage"
         ELSE IF n2d = NoVal THEN "crash"                   \* comparison with no value
         ELSE IF a.v["pmax"] > n2d THEN "usage"
-        ELSE IF t1d < 0 \/ t1d > 4 \/ t2d < 0 \/ t2d > 4 THEN "usage"
+        ELSE IF t1d < 0 \/ t1d > 20 \/ t2d < 0 \/ t2d > 20 THEN "usage"
         ELSE IF lqd < 0 \/ llqd < 0 THEN "usage"
         ELSE IF uqd # NoVal /\ uqd < n2d THEN "usage"
         ELSE IF uqd = NoVal THEN "crash"
@@ -106,9 +106,9 @@ ListsOK(a, f) ==
          /\ IsDense(f.ranks[s])
 TiesOK(a, f) ==
     /\ T1(a) = 0 => \A s \in 1 .. N1(a) : NoTies(f.ranks[s])
-    /\ T1(a) = 4 => \A s \in 1 .. N1(a) : AllTied(f.ranks[s])
+    /\ T1(a) = 20 => \A s \in 1 .. N1(a) : AllTied(f.ranks[s])
     /\ f.lists /\ T2(a) = 0 => \A l \in DOMAIN f.lranks : NoTies(f.lranks[l])
-    /\ f.lists /\ T2(a) = 4 => \A l \in DOMAIN f.lranks : AllTied(f.lranks[l])
+    /\ f.lists /\ T2(a) = 20 => \A l \in DOMAIN f.lranks : AllTied(f.lranks[l])
 QuotasOK(a, f) ==
     /\ f.plq = Spread(N2(a), LQ(a)) /\ f.puq = Spread(N2(a), UQ(a))
     /\ \A p \in 1 .. N2(a) : f.plq[p] <= f.puq[p]
@@ -140,7 +140,7 @@ BlockExpected(a) ==
     << <<"number_of_agents_type_1", Rat(N1(a), 1)>>, <<"number_of_agents_type_2", Rat(N2(a), 1)>> >>
     \o (IF a.mp = "spa" THEN << <<"number_of_agents_type_3", Rat(N3(a), 1)>> >> ELSE <<>>)
     \o << <<"min_pref_list_length", Rat(a.v["pmin"], 1)>>, <<"max_pref_list_length", Rat(a.v["pmax"], 1)>>,
-           <<"ties_probability_1", Rat(T1(a), 4)>>, <<"ties_probability_2", Rat(T2(a), 4)>>,
+           <<"ties_probability_1", Rat(T1(a), 20)>>, <<"ties_probability_2", Rat(T2(a), 20)>>,
            <<"sum_agent2_lower_quotas", Rat(LQ(a), 1)>>, <<"sum_agent2_upper_quotas", Rat(UQ(a), 1)>>,
            <<"skew_for_agent_1", Rat(Val(a, "skew", 2), 2)>> >>
     \o (IF a.mp = "spa" THEN << <<"sum_agent3_lower_quotas", Rat(LLQ(a), 1)>>, <<"sum_agent3_targets", Rat(LT(a), 1)>>,
@@ -168,7 +168,7 @@ MkDir ==
 TieChoices(a, n, t) ==      \* indicator vectors a tie probability allows
     IF n = 0 THEN {<<>>}
     ELSE IF t = 0 THEN {[i \in 1 .. n |-> 0]}
-    ELSE IF t = 4 THEN {[i \in 1 .. n |-> 1]}
+    ELSE IF t = 20 THEN {[i \in 1 .. n |-> 1]}
     ELSE [1 .. n -> {0, 1}]
 
 RECURSIVE DSeqs(_, _)
